@@ -8,7 +8,7 @@ import re
 
 from ural.ensure_protocol import ensure_protocol
 from ural.get_hostname import get_hostname
-from ural.patterns import QUERY_VALUE_IN_URL_TEMPLATE
+from ural.patterns import ASCII, QUERY_VALUE_IN_URL_TEMPLATE
 
 from ural.utils import (
     safe_parse_qs,
@@ -26,7 +26,8 @@ BASE_FACEBOOK_URL = "https://www.facebook.com"
 
 FACEBOOK_ID_RE = re.compile(r"^\d+$")
 FACEBOOK_FULL_ID_RE = re.compile(r"^\d+_\d+$")
-FACEBOOK_DOMAIN_RE = re.compile(r"(?:^|\.)(?:facebook\.[^.]+|fb\.me)$", re.I)
+# NOTE: ascii-only case folding, else "\u0131" (dotless i), "\u017f" & "\u212a" fold onto i, s & k
+FACEBOOK_DOMAIN_RE = re.compile(r"(?:^|\.)(?:facebook\.[^.]+|fb\.me)$", re.I | ASCII)
 MOBILE_REPLACE_RE = re.compile(r"^([^.]+\.)?facebook\.", re.I)
 
 URL_EXTRACT_RE = re.compile(QUERY_VALUE_IN_URL_TEMPLATE % r"u")
